@@ -2,18 +2,31 @@
    Only statements closed by `exact`; proofs live in part/PartCheck.v, part/QuickMerge.v,
    part/QuickInv.v and part/QuickThm.v.
 
+   (ScanPartitioner: part/Scan.v, proofs in part/ScanCalc.v and part/ScanThm.v.)
+
    Spec: part/PartSpec.v (good_partition).  Model of QuickPartitioner.run: part/Quick.v
    (`quick k fx nq ncyc ops hints`; fx = false is the unchanged code, `hints` replays the
    iteration order of the `overlapping_bins` sets, the theorems hold for every order). *)
 From Coq Require Import List Arith Bool NArith ZArith Permutation.
 Import ListNotations.
 From BQ Require Import lib.Trace part.PartSpec part.PartCheck part.Quick
-  part.QuickLemmas part.QuickMerge part.QuickInv part.QuickThm part.QuickLive.
+  part.QuickLemmas part.QuickMerge part.QuickInv part.QuickThm part.QuickLive
+  part.Scan part.ScanCalc part.ScanThm part.PartCheckComplete.
 
 (* ---- the verified oracle (run on the output of every partitioner) ---- *)
 Theorem C08_check_sound : forall k i o,
   check_partition k i o = true -> good_partition k i o.
 Proof. exact check_partition_sound. Qed.
+
+(* ... and complete: it accepts every good partition, so a rejection by the oracle IS a violation of the
+   property (no false alarms by construction) *)
+Theorem C08_check_complete : forall k i o,
+  good_partition k i o -> check_partition k i o = true.
+Proof. exact check_partition_complete. Qed.
+
+Theorem C08_check_iff : forall k i o,
+  check_partition k i o = true <-> good_partition k i o.
+Proof. exact check_partition_iff. Qed.
 
 (* a good partition has the same meaning as its input in every semantics in which
    operations on disjoint qudits commute (matrices in particular) *)
@@ -147,3 +160,83 @@ Example C08_quick_fixed_on_witness :
   quick 3 true 4 5 deadlock_circuit deadlock_hints =
   inl [Block [0; 1] [cx 0 1]; Leaf (bar [1]); Block [1; 2] [cx 1 2]; Leaf (bar [2; 3]); Block [0; 3] [cx 0 3]].
 Proof. exact quick_fixed_on_witness. Qed.
+
+(* ---- ScanPartitioner (part/Scan.v: run, calculate_block, FastRegionIterator, find_best_block,
+   fold_circuit; the list returned by calculate_qudit_groups is a replayed input that the model
+   checks; the scoring function is a parameter) ---- *)
+
+(* The key lemma: the region calculate_block computes for a qudit group is CLOSED - an operation with
+   one point inside the region has all its points inside - whenever the starting cycles are a
+   consistent cut of the circuit (`Hcut`: the divider never separates the qudits of one operation). *)
+Theorem C08_scan_block_closed : forall k nc c g,
+  ordered c -> (forall x, In x c -> (fst x < nc)%Z) ->
+  forall D, NoDup g ->
+  (forall x q q', In x c -> In q (oloc (snd x)) -> In q' (oloc (snd x)) -> (fst x < dv D q)%Z -> (fst x < dv D q')%Z) ->
+  forall r ops, calc_block k nc c g (starts_of D g) = inl (r, ops) ->
+  (forall e, In e r -> In (rq e) g /\ rlo e = dv D (rq e) /\ (rlo e <= rhi e)%Z) /\
+  NoDup (map rq r) /\ closed_region c r.
+Proof. exact calc_block_closed. Qed.
+
+(* one iteration of the `while` loop keeps: the divider is a consistent cut, every potential block is
+   the calculate_block of the current divider, the chosen regions unfold to exactly the operations left
+   of the divider (as a multiset and per qudit in order), every chosen region lies inside one group *)
+Theorem C08_scan_step_inv : forall k nq nc c, scan_wf nq nc c ->
+  forall D P R g r ops P',
+  linv k nq nc c D P R -> In (g, (r, ops)) P ->
+  remap k nc c (update_div D r) (map rq r) P = inl P' ->
+  linv k nq nc c (update_div D r) P' (r :: R).
+Proof. exact step_inv. Qed.
+
+(* The C08 statement for ScanPartitioner without the barrier clause, for EVERY scoring function,
+   block size and (checked) list of qudit groups: whenever run() returns, every block spans at most
+   max(block size, widest gate inside) qudits, every operation occurs exactly once with its
+   parameters, the per-qudit operation sequences of the unfolded output are those of the input, and
+   every top-level item is a block. *)
+Theorem C08_scan_regrouping : forall score k nq nc c groups o,
+  scan_wf nq nc c ->
+  scan score k nq nc c groups = inl o ->
+  regrouping k (map snd c) o /\ all_blocks o.
+Proof. exact scan_regrouping. Qed.
+
+(* the full statement (with the barrier clause) on input without barriers/measurements/resets ... *)
+Theorem C08_scan_good_partition : forall score k nq nc c groups o,
+  scan_wf nq nc c -> (forall x, In x c -> okind (snd x) = KGate) ->
+  scan score k nq nc c groups = inl o -> good_partition k (map snd c) o.
+Proof. exact scan_good_partition. Qed.
+
+Theorem C08_scan_same_unitary : forall score k nq nc c groups o
+  (M : Type) (mul : M -> M -> M) (one : M) (den : op -> M),
+  (forall x y z, mul x (mul y z) = mul (mul x y) z) ->
+  (forall x, mul one x = x) ->
+  (forall a b, indep op oloc a b -> mul (den a) (den b) = mul (den b) (den a)) ->
+  scan_wf nq nc c -> (forall x, In x c -> okind (snd x) = KGate) ->
+  scan score k nq nc c groups = inl o ->
+  sem M mul one den (unfold o) = sem M mul one den (map snd c).
+Proof. exact scan_same_unitary. Qed.
+
+(* ... and the full statement is FALSE for ScanPartitioner when barriers occur: it treats them as
+   gates and absorbs them into blocks (finding C08.B1; the implementation does the same) *)
+Definition C08_scan_correct_full : Prop :=
+  forall score k nq nc c groups o, scan_wf nq nc c ->
+  scan score k nq nc c groups = inl o -> good_partition k (map snd c) o.
+
+Theorem C08_scan_barrier_absorbed :
+  scan_wf 2 1 scan_barrier_circuit /\
+  scan default_score 2 2 1 scan_barrier_circuit [[0; 1]] = inl [Block [0; 1] [mkOp 1 [0; 1] 0 KBarrier]] /\
+  ~ good_partition 2 (map snd scan_barrier_circuit) [Block [0; 1] [mkOp 1 [0; 1] 0 KBarrier]].
+Proof. exact scan_barrier_absorbed. Qed.
+
+Theorem C08_scan_correct_full_refuted : ~ C08_scan_correct_full.
+Proof. exact scan_correct_full_refuted. Qed.
+
+(* non-vacuity: a well-formed circuit (3-qudit gate, two overlapping groups, a gate that stops a
+   group's scan) on which the model returns three blocks *)
+Example C08_scan_nonvacuous :
+  let c := [(0%Z, cx 0 1); (0%Z, mkOp 3 [2] 1 KGate); (1%Z, mkOp 4 [1; 2; 3] 1 KGate);
+            (2%Z, cx 0 1); (2%Z, mkOp 3 [3] 2 KGate)] in
+  scan_wf 4 3 c /\
+  scan default_score 3 4 3 c [[0; 1; 2]; [1; 2; 3]] =
+    inl [Block [0; 1; 2] [cx 0 1; mkOp 3 [2] 1 KGate];
+         Block [1; 2; 3] [mkOp 4 [1; 2; 3] 1 KGate; mkOp 3 [3] 2 KGate];
+         Block [0; 1] [cx 0 1]].
+Proof. split; [apply scan_wfb_sound; vm_compute; reflexivity| vm_compute; reflexivity]. Qed.
